@@ -93,8 +93,10 @@ def judge(case, rec, slack_ms=250.0):
     for i, e in enumerate(ev):
         k = e["e"]
         if k == "accept":
-            cid2port[e["c"]] = e["pp"]
-            c = conns.setdefault(e["pp"], Conn(e["pp"]))
+            key = (e["pp"], e.get("sp", rec.get("port")))
+            cid2port[e["c"]] = key
+            c = conns.setdefault(key, Conn(e["pp"]))
+            c.srv_index = e.get("s", 0)
             c.cid = e["c"]
             c.srv.append((i, e))
         elif "c" in e and k not in ("call",):
@@ -102,7 +104,7 @@ def judge(case, rec, slack_ms=250.0):
             if p is not None:
                 conns[p].srv.append((i, e))
         elif k.startswith("c_") and "lp" in e:
-            conns.setdefault(e["lp"], Conn(e["lp"])).cli.append((i, e))
+            conns.setdefault((e["lp"], e.get("dp", rec.get("port"))), Conn(e["lp"])).cli.append((i, e))
         elif k == "call":
             calls[e["r"]] = (i, e)
         elif k == "ret":
@@ -123,7 +125,8 @@ def judge(case, rec, slack_ms=250.0):
     # ---- transmissions (client view, cross-checked against the server view)
     trans = defaultdict(list)       # request index -> [dict(port, ord, idx, nbytes, complete, label, srv_bytes)]
     per_conn_trans = {}
-    for port, c in conns.items():
+    for key, c in conns.items():
+        port = c.port
         cs, cmarks = _stream(c.cli, "c_send")
         ss, smarks = _stream(c.srv, "rx")
         unread = sum(e.get("unread", 0) for _, e in c.srv if e["e"] in ("rst", "close"))
@@ -134,7 +137,7 @@ def judge(case, rec, slack_ms=250.0):
         labels = {e["n"]: e.get("label") for _, e in c.srv if e["e"] == "arr"}
         lst = []
         for n, f in enumerate(fr):
-            t = dict(port=port, ord=n, idx=_index_at(marks, f["start"]), nbytes=f["end"] - f["start"], complete=f["complete"],
+            t = dict(port=port, key=list(key), ord=n, idx=_index_at(marks, f["start"]), nbytes=f["end"] - f["start"], complete=f["complete"],
                      token=f["token"], method=f["method"], said_close=f["said_close"], label=labels.get(n),
                      srv_saw=len(ss) + unread > f["start"])
             lst.append(t)
@@ -145,7 +148,7 @@ def judge(case, rec, slack_ms=250.0):
                 trans[tok2r[f["token"]]].append(t)
             else:
                 notes.append("conn %d carries %d bytes that name no known token (%r)" % (port, t["nbytes"], view[f["start"]:f["start"] + 40]))
-        per_conn_trans[port] = lst
+        per_conn_trans[key] = lst
         if c.cid is not None:
             obs["connections_accepted"] += 1
         if any(e["e"] == "c_connect" for _, e in c.cli) and c.cid is None:
@@ -178,7 +181,8 @@ def judge(case, rec, slack_ms=250.0):
               dict(transmissions=tl, sleeps=[e for _, e in sleeps.get(i, [])]))
 
     # ---- per connection server-side walk: exchanges, taints
-    for port, c in conns.items():
+    for key, c in conns.items():
+        port = c.port
         if c.cid is None:
             continue
         txcum, exch, taints, dones, tx_at_done = 0, -1, [], set(), 0
@@ -198,7 +202,7 @@ def judge(case, rec, slack_ms=250.0):
                 obs["server_rst"] += 1
             elif k == "fin":
                 obs["server_fin"] += 1
-        tl = per_conn_trans.get(port, [])
+        tl = per_conn_trans.get(key, [])
         recvs = [(i, e) for i, e in c.cli if e["e"] == "c_recv"]
 
         # R3: deterministic framing error, then the same request again anywhere
@@ -210,7 +214,7 @@ def judge(case, rec, slack_ms=250.0):
             if not cur or cur[0]["token"] not in tok2r:
                 continue
             ri = tok2r[cur[0]["token"]]
-            later = [x for x in trans.get(ri, []) if x["idx"] > cur[0]["idx"] and not (x["port"] == port and x["ord"] == t["exch"])]
+            later = [x for x in trans.get(ri, []) if x["idx"] > cur[0]["idx"] and not (x["key"] == list(key) and x["ord"] == t["exch"])]
             rxed = sum(e["len"] for i, e in recvs if e["len"] > 0 and (not later or i < later[0]["idx"]))
             got = rets.get(ri, (None, {}))[1]
             if got.get("ex") == "HttpFramingError":
@@ -310,7 +314,7 @@ def judge(case, rec, slack_ms=250.0):
 
     # R5b: black-holed connects
     if any(r.blackhole for r in reqs):
-        for port, c in conns.items():
+        for key, c in conns.items():
             if c.cid is not None:
                 continue
             t0 = [e["ts"] for _, e in c.cli if e["e"] == "c_connect"]
@@ -323,6 +327,45 @@ def judge(case, rec, slack_ms=250.0):
                     V("C17:silence:connect-waited-beyond-timeout",
                       "connect to a silent listener was abandoned only after %.0f ms (connect timeout %d ms, allowance %.0f ms)" % (wait, min(case.ct, 200), lim),
                       dict(wait_ms=wait), timing=True)
+
+    # R7: shared client with a lease-acquire timeout — every phase of an attempt is bounded by a CONFIGURED timeout:
+    # waiting for the host's connection lease (leaseAcquireTimeout), connecting (connect timeout, clamped to 200 ms for
+    # loopback by the client), waiting for the response (request timeout). Traffic to other hosts must not stretch any of them.
+    L = getattr(case, "lease", 0)
+    if L > 0:
+        ct_eff = min(case.ct, 200)
+        for i, r in enumerate(reqs):
+            if i not in calls or i not in rets:
+                continue
+            got = rets[i][1]
+            sl = [e for _, e in sleeps.get(i, [])]
+            starts = [calls[i][1]["ts"]] + [e["ts"] for e in sl]
+            ends = [e["ts"] - e["act_ms"] * 1000.0 for e in sl] + [rets[i][1]["ts"]]
+            tx_ts = sorted(ev[t["idx"]]["ts"] for t in trans.get(i, []) if t["idx"] >= 0)
+            if (got.get("what") or "").startswith("HttpClient: timed out acquiring connection lease"):
+                obs["lease_timeouts_reported"] += 1
+            for a, (s0, e0) in enumerate(zip(starts, ends)):
+                first_tx = next((x for x in tx_ts if s0 <= x <= e0), None)
+                phase = ((first_tx if first_tx is not None else e0) - s0) / 1000.0
+                lim = L + ct_eff + slack_ms + 6.0 * noise
+                obs["lease_phase_checked"] += 1
+                obs["lease_phase_over_bound_ms_max"] = max(obs["lease_phase_over_bound_ms_max"], int(max(0, phase - (L + ct_eff))))
+                if phase > lim:
+                    V("C17:lease:waited-beyond-timeout",
+                      "%s %s attempt %d spent %.0f ms before it %s, although leaseAcquireTimeout is %d ms and the connect "
+                      "timeout %d ms (allowance %.0f ms incl. scheduling noise %.1f ms); other callers of the same client "
+                      "were completing requests to another host meanwhile"
+                      % (r.method, r.token, a + 1, phase, "put its first byte on the wire" if first_tx is not None else "gave up",
+                         L, ct_eff, lim, noise),
+                      dict(phase_ms=phase, lease_ms=L, outcome=got), timing=True)
+            attempts = len(sl) + 1
+            total_lim = attempts * (L + ct_eff + case.rt + slack_ms + 6.0 * noise) + sum(e["act_ms"] for e in sl)
+            if got.get("elapsed_ms", 0) > total_lim:
+                V("C17:call:exceeded-configured-timeouts",
+                  "%s %s returned after %.0f ms with %d attempt(s); the configured timeouts allow at most %d x (lease %d + connect %d "
+                  "+ request %d ms) + back-off = %.0f ms incl. allowance" % (r.method, r.token, got.get("elapsed_ms", 0), attempts,
+                                                                          attempts, L, ct_eff, case.rt, total_lim),
+                  dict(outcome=got, lease_ms=L), timing=True)
 
     # R6: a caller must get the response to its own request
     outcomes = []
@@ -350,8 +393,8 @@ def judge(case, rec, slack_ms=250.0):
     sig = (case.group, tuple((r.method, r.budget, r.refuse, r.blackhole) for r in reqs), labels, tuple(outcomes),
            tuple(len(trans.get(i, [])) for i in range(len(reqs))), tuple(len(sleeps.get(i, [])) for i in range(len(reqs))),
            case.ka, case.th)
-    sample = dict(case=case.describe(), outcomes=outcomes,
-                  transmissions={reqs[i].token: [(t["port"], t["ord"], t["nbytes"], t["label"]) for t in trans.get(i, [])] for i in range(len(reqs))},
-                  backoff_sleeps=[len(sleeps.get(i, [])) for i in range(len(reqs))], server_programs=list(labels),
+    sample = dict(case=case.describe(), outcomes=outcomes[:12],
+                  transmissions={reqs[i].token: [(t["port"], t["ord"], t["nbytes"], t["label"]) for t in trans.get(i, [])] for i in range(min(len(reqs), 12))},
+                  backoff_sleeps=[len(sleeps.get(i, [])) for i in range(min(len(reqs), 12))], server_programs=list(labels)[:24],
                   noise_ms=noise)
     return dict(viol=viol, obs=obs, sig=sig, sample=sample, notes=notes)
